@@ -249,6 +249,16 @@ def gen_ffi_atomic(r, n, tier):
             yield f"ffi atomic {regs} {ntx} {reads} {threads}"
     else:
         yield "ffi atomic 100 300 150 3"
+    # flagged cases (both tiers, ~0.5 s each; the transactions run until the reads are done):
+    # d = server decodes app + frame meanwhile, w = disjoint writers (one counter per thread
+    # incremented inside the transactions + a client writing another register)
+    yield "ffi atomic 100 1000000 250 3 dw"
+    yield "ffi atomic 125 1000000 200 2 d"
+    yield "ffi atomic 16 1000000 200 4 w"
+    yield "ffi atomic 100 1000000 200 1 w"
+    if tier == "thorough":
+        yield "ffi atomic 64 1000000 600 4 dw"
+        yield "ffi atomic 2 1000000 600 8 dw"
 
 
 # ---------------------------------------------------------------- ffi reuse / ffi ctl
